@@ -400,7 +400,8 @@ Section Main.
 
   Lemma http_address_eq : flags_HTTPAddress ctx = yaml_HTTPAddress y.
   Proof.
-    unfold flags_HTTPAddress, yaml_HTTPAddress. reads. fold G. fold y.
+    unfold flags_HTTPAddress, yaml_HTTPAddress, ctx, y, G.
+    rS "http_address" "http_address" ""; rS "host" "host" ""; rI "port" "port" 8080. fold G. fold y.
     unfold listeners_explicit in Hlisten. apply andb_true_iff in Hlisten as [H _]. apply andb_true_iff in H as [H _].
     apply orb_true_iff in H as [H|H].
     - rewrite (y_nonempty "http_address" "http_address" "" H) by reflexivity. reflexivity.
@@ -409,7 +410,8 @@ Section Main.
 
   Lemma grpc_address_eq : flags_GRPCAddress ctx = yaml_GRPCAddress y.
   Proof.
-    unfold flags_GRPCAddress, yaml_GRPCAddress. reads. fold G. fold y.
+    unfold flags_GRPCAddress, yaml_GRPCAddress, ctx, y, G.
+    rS "grpc_address" "grpc_address" ""; rS "host" "host" ""; rI "grpc_port" "grpc_port" 9092. fold G. fold y.
     unfold listeners_explicit in Hlisten. apply andb_true_iff in Hlisten as [H _]. apply andb_true_iff in H as [_ H].
     apply orb_true_iff in H as [H|H].
     - rewrite (y_nonempty "grpc_address" "grpc_address" "" H) by reflexivity. reflexivity.
@@ -418,7 +420,9 @@ Section Main.
 
   Lemma profile_address_eq : flags_ProfileAddress ctx = yaml_ProfileAddress y.
   Proof.
-    unfold flags_ProfileAddress, yaml_ProfileAddress. reads. fold G. fold y.
+    unfold flags_ProfileAddress, yaml_ProfileAddress, ctx, y, G.
+    rS "profile_address" "profile_address" ""; rS "profile_host" "profile_host" "127.0.0.1"; rI "profile_port" "profile_port" 0.
+    fold G. fold y.
     unfold listeners_explicit in Hlisten. apply andb_true_iff in Hlisten as [_ H].
     apply orb_true_iff in H as [H|H]; [apply orb_true_iff in H as [H|H]|].
     - rewrite (y_nonempty "profile_address" "profile_address" "" H) by reflexivity. reflexivity.
@@ -453,6 +457,26 @@ Section Main.
     unfold y, yaml_data_of, yS. destruct (G (settings_key "ldap.username_attribute")) as [[]|]; reflexivity.
   Qed.
 
+  Lemma ldap_section_eq (b : bool) u bd bu bp gq ct :
+    option_map canon_ldap (if b then Some (mkLDAPConfig u bd bu bp (yS y "ldap.username_attribute" "uid") gq ct) else None)
+    = option_map canon_ldap (if b then Some (mkLDAPConfig u bd bu bp (yS y "ldap.username_attribute" "") gq ct) else None).
+  Proof. destruct b; [|reflexivity]. cbn [option_map]. f_equal. apply ldap_eq. Qed.
+
+  Lemma s3_section_eq a1 a2 a3 a4 a5 a6 a7 a8 a9 a10 a11 a12 a13 a15 a17 :
+    (if str_given s "s3.bucket"
+     then Some (mkS3CloudStorageConfig a1 a2 a3 a4 a5 a6 a7 a8 a9 a10 a11 a12 a13 (yS y "s3_proxy.aws_profile" "default") a15
+                  (yS y "s3_proxy.bucket_lookup_type" "auto") a17) else None)
+    = (if str_given s "s3.bucket"
+       then Some (mkS3CloudStorageConfig a1 a2 a3 a4 a5 a6 a7 a8 a9 a10 a11 a12 a13 (yS y "s3_proxy.aws_profile" "") a15
+                    (yS y "s3_proxy.bucket_lookup_type" "") a17) else None).
+  Proof.
+    destruct (str_given s "s3.bucket") eqn:E; [|reflexivity].
+    unfold s3_defaults_given in Hs3. rewrite E in Hs3. cbn [negb orb] in Hs3. apply andb_true_iff in Hs3 as [P1 P2].
+    rewrite (y_given_S "s3.aws_profile" "s3_proxy.aws_profile" "default" "") by (try exact P2; vm_compute; reflexivity).
+    rewrite (y_given_S "s3.bucket_lookup_type" "s3_proxy.bucket_lookup_type" "auto" "") by (try exact P1; vm_compute; reflexivity).
+    reflexivity.
+  Qed.
+
   Lemma cfg_eq hc gb : canon (flags_cfg ctx hc gb) = canon (yaml_cfg y hc gb).
   Proof.
     unfold canon, flags_cfg, yaml_cfg.
@@ -472,12 +496,41 @@ Section Main.
     sec "gcs_proxy.bucket" "gcs_proxy.bucket".
     fold G. fold y.
     rewrite hard_limit_eq, <- key_version_eq.
-    f_equal.
-    - destruct (str_given s "ldap.url"); [|reflexivity]. cbn [option_map]. f_equal. apply ldap_eq.
-    - destruct (str_given s "s3.bucket") eqn:E; [|reflexivity].
-      unfold s3_defaults_given in Hs3. rewrite E in Hs3. cbn [negb orb] in Hs3. apply andb_true_iff in Hs3 as [P1 P2].
-      rewrite (y_given_S "s3.aws_profile" "s3_proxy.aws_profile" "default" "") by (try exact P2; vm_compute; reflexivity).
-      rewrite (y_given_S "s3.bucket_lookup_type" "s3_proxy.bucket_lookup_type" "auto" "") by (try exact P1; vm_compute; reflexivity).
-      reflexivity.
+    rewrite ldap_section_eq, s3_section_eq. reflexivity.
+  Qed.
+
+  Lemma http_backend_eq u : flags_HTTPBackend ctx u = yaml_HTTPBackend y u.
+  Proof.
+    unfold flags_HTTPBackend, yaml_HTTPBackend, ctx, y, G.
+    rS "http_proxy.cert_file" "http_proxy.cert_file" ""; rS "http_proxy.key_file" "http_proxy.key_file" "";
+    rS "http_proxy.ca_file" "http_proxy.ca_file" "". reflexivity.
+  Qed.
+
+  Lemma grpc_backend_eq u : flags_GRPCBackend ctx u = yaml_GRPCBackend y u.
+  Proof.
+    unfold flags_GRPCBackend, yaml_GRPCBackend, ctx, y, G.
+    rS "grpc_proxy.cert_file" "grpc_proxy.cert_file" ""; rS "grpc_proxy.key_file" "grpc_proxy.key_file" "";
+    rS "grpc_proxy.ca_file" "grpc_proxy.ca_file" "". reflexivity.
+  Qed.
+
+  Theorem agree : eff (from_flags (model_ext up) s) = eff (from_yaml (model_ext up) s).
+  Proof.
+    unfold from_flags, from_yaml. rewrite Hflags, Hyaml.
+    rewrite flags_shape, (yaml_shape up _ (yaml_types s Hflags Hcache)).
+    rewrite (config_file_empty s Hyaml). cbn [String.eqb negb].
+    trig "http_proxy.url". trig "grpc_proxy.url".
+    rS "http_proxy.url" "http_proxy.url" "". rS "grpc_proxy.url" "grpc_proxy.url" "".
+    unfold http_keys, grpc_keys. sec "http_proxy.url" "http_proxy.url". sec "grpc_proxy.url" "grpc_proxy.url".
+    fold G. fold ctx. fold y.
+    unfold url_section, yaml_section.
+    destruct (str_given s "http_proxy.url"); [destruct (up (yS y "http_proxy.url" "")) as [uh|]|];
+      (destruct (str_given s "grpc_proxy.url"); [destruct (up (yS y "grpc_proxy.url" "")) as [ug|]|]);
+      cbv beta iota delta [bind]; try lazymatch goal with |- eff (Err _) = eff (Err _) => reflexivity end.
+    all: apply finish_eff; rewrite ?http_backend_eq, ?grpc_backend_eq; apply cfg_eq.
   Qed.
 End Main.
+
+(* the statement for the settings both syntaxes express alike *)
+Theorem agree_partial up s : expressible_in_both s ->
+  eff (from_flags (model_ext up) s) = eff (from_yaml (model_ext up) s).
+Proof. intros [[Hf [Hy Hl]] [Hc [Hs H3]]]. apply agree; assumption. Qed.
